@@ -921,7 +921,7 @@ impl PGen {
     }
     fn odds(&mut self) -> usize {
         if self.rng.chance(1, 60) {
-            return 1usize << 62;
+            return 1usize << 61;
         }
         ODDS[self.rng.below(ODDS.len() as u64) as usize]
     }
